@@ -35,7 +35,7 @@ pub fn check(c: &Case, obs: &mut Obs) -> R {
             obs.label(format!("escaped-differs/{}", d.name()));
         }
     }
-    let nt = c.s.chars().any(|ch| matches!(ch, '\\' | '\'' | '"' | '\n' | '\t' | '\r' | '\0' | '\u{8}' | '\u{1a}'));
+    let nt = c.s.chars().any(|ch| matches!(ch, '\\' | '\'' | '"' | '\n' | '\t' | '\r' | '\0' | '\u{8}' | '\u{1a}') || (ch as u32) > 0x7f);
     if nt {
         obs.nontrivial(&c.s);
         obs.label("has-escapable");
@@ -45,12 +45,26 @@ pub fn check(c: &Case, obs: &mut Obs) -> R {
 
 pub fn run(ctx: &mut Ctx) {
     ctx.rule = "inputs: all strings over the 19-symbol alphabet {\\ ' \" a n 0 z Z b t r LF TAB CR NUL BS 0x1A % é} up to length L \
-(exhaustive) and random Unicode strings (NUL included) up to 64 chars, each on the 3 backends. Non-trivial = the string contains a \
-character that is escaped or a backslash; distinct by input."
+(exhaustive) every Unicode scalar value alone and in context, \
+and random Unicode strings (NUL included) up to 64 chars, each on the 3 backends. Non-trivial = the string contains a \
+character that is escaped, a backslash or a non-ASCII character; distinct by input."
         .into();
     let max_len = ctx.tier.pick(4, 5);
     let total = count_strings(19, max_len);
     ctx.run_indexed("alphabet", total, &|i| Case { s: nth_string(&ALPHABET, i) }, &check);
+    // every Unicode scalar value, alone and in context (exhaustive over code points)
+    ctx.run_indexed(
+        "all-chars",
+        0x110000 * 2,
+        &|i| {
+            let ch = char::from_u32((i / 2) as u32).unwrap_or('\u{fffd}');
+            Case { s: if i % 2 == 0 { ch.to_string() } else { format!("a\\{ch}'{ch}") } }
+        },
+        &check,
+    );
+    if let Some(p) = ctx.parts.last_mut() {
+        p.exhaustive = true;
+    }
     let n = ctx.tier.pick(100_000, 3_000_000);
     ctx.run_proptest("random-unicode", n, &|| nasty_string_nul(64).prop_map(|s| Case { s }), &check);
     if let Some(p) = ctx.parts.first_mut() {
